@@ -207,6 +207,9 @@ def r07c(run, S):
     d = run.repo.func("utype.parser.cls", "ClassParser.make_deleter.deleter")
     da = analysis(d)
     pops = [(n, c) for n, c in da.all_calls() if call_attr(c) == "pop" and "__dict__" in unparse(c.func)]
+    # `del obj.__dict__[name]` removes as well
+    pops += [(n, n.ast) for n in da.cfg.nodes if n.kind == "stmt" and isinstance(n.ast, ast.Delete)
+             and any("__dict__" in unparse(t) for t in n.ast.targets)]
     run.floor("R07c", "removals in the generated attribute deleter", len(pops), 1)
     for n, c in pops:
         facts = _facts(da, n)
